@@ -440,7 +440,7 @@ def rule_e(ctx):
     for log, opts in sem:
         where = (" on the path " + " and ".join(("" if b else "not ") + nf(c)[:40] for c, b in log)) if log else ""
         a = opts.get("atol")
-        ctx.ob(R, f.qname, "cg: atol defaults to 0 (relative stopping only)" + where, is_get(a, "atol", 0), f"atol = {nf(a)[:80]}" if a is not None else "no atol entry", f.node,
+        ctx.ob(R, f.qname, "cg: atol defaults to 0 (relative stopping only)" + where, is_get(a, "atol", 0), (f"atol = {nf(a)[:80]}" if (isinstance(a, int) or (isinstance(a, Sym) and a.attr == "get" and len(a.args) == 2)) else f"atol entry not found in a comparable form: {nf(a)[:60]}") if a is not None else "no atol entry", f.node,
                evidence=a is not None and isinstance(a, (int, Sym)) and not is_get(a, "atol", 0) and (not isinstance(a, Sym) or (a.attr == "get" and len(a.args) == 2)))
         r = opts.get("rtol")
         ctx.ob(R, f.qname, "cg: rtol is read from the option of that name" + where, is_get(r, "rtol", ...), f"rtol = {nf(r)[:80]}" if r is not None else "no rtol entry", f.node)
